@@ -31,7 +31,7 @@ ASSUMPTIONS = [
 BUDGET = {"quick": 60, "thorough": 900}
 PREFIX = "undo"
 
-ROWS = ["a", "b x", "c", "d 1"]
+ROWS = ["a", "b x", "c", "d 1"]     # block heads add: "d 0" (numeric zero token)
 
 
 # ---- programs --------------------------------------------------------------------------------------
@@ -41,6 +41,7 @@ def programs(max_nodes, max_depth):
        ("multi", [[tokens],[tokens]], body)"""
     leaves = [("y", r) for r in ROWS] + [("yt", ["b", "x"]), ("yt", ["d", 1]), ("ytext", ["a", "c"])]
     heads = [("block", ["a"]), ("block", ["b", "x"]), ("block_if", ["a"]), ("block_if", [None]), ("block_if", ["d", ""]),
+             ("block_if", ["d", 0]),
              ("multi", [["a"], ["b", "x"]]), ("multi", [])]
     memo = {}
 
